@@ -166,8 +166,24 @@ where
     for _ in 0..2 * depth + extra {
         s.next_source_frame(F::of(cval));
     }
-    for i in 0..256 {
-        let x = i as f64 / 256.0;
+    // the 1/256 grid, then the boundary lattice of the position domain [0, 1): powers of two and of
+    // ten down to the smallest subnormal, and their complements just below 1
+    let mut xs: Vec<f64> = (0..256).map(|i| i as f64 / 256.0).collect();
+    for k in 1..=64 {
+        xs.push(0.5f64.powi(k));
+        if k <= 53 {
+            xs.push(1.0 - 0.5f64.powi(k));
+        }
+    }
+    for k in 3..=16 {
+        xs.push(10f64.powi(-k));
+        xs.push(3.0 * 10f64.powi(-k));
+        if k <= 15 {
+            xs.push(1.0 - 10f64.powi(-k));
+        }
+    }
+    xs.extend([f64::MIN_POSITIVE, 5e-324, 1e-100, 1e-300]);
+    for x in xs {
         for (ch, o) in s.interpolate(x).val().iter().enumerate() {
             if (o - cval).abs() > 0.01 * cval.abs() + F::LSB {
                 return Some(("sinc.constant".into(), format!("{} depth {depth}: constant input {cval} after {} frames, x = {x}: channel {ch} = {o} (more than 1% off)", F::NAME, 2 * depth + extra)));
@@ -307,7 +323,7 @@ fn main() {
     ctx.set("depths", json!(depths));
     ctx.set("exhaustive", json!(true));
     ctx.set("exhaustive_scope", json!("the stated finite grid of depths, fractional positions, priming levels and histories over a 5-letter alphabet; other depths / positions / amplitudes are not explored"));
-    ctx.rule("frames f64, [f32;2], [i16;1]; depths 1..=8 and scale probes 12,16,17,25,32,33,50,64,100,128 (thorough 1..=16 and 17,20,25,31,32,33,50,63,64,65,100,127,128,129,200,256; depths above 8 with every 7th source, histories of length 2 and priming levels 0, depth, 2*depth only); (a) ratio 1 through Converter over an instrumented source: every source over {-1,-1/2,0,1/2,1} of length <=4 (thorough 5) plus impulse/step/ramp of length 3*depth: output k == 0 for k<depth and source[k-depth] after, within 1e-12 x peak, one pull per output; (b) linearity at x in k/16 (quick k/8) and at every priming level 0..=2*depth: impulse responses out(e_j) measured on the real code, every history over the alphabet of length <=3 (thorough 5): |out(h) - sum h_j out(e_j)| within (8 depth + 64) ulp x peak (ints: (2 depth + 2) LSB per term), out(c h) == c out(h) for c in {-1,1/2,2}; (c) every output finite; (d) constant input, depth>=4, >=2*depth frames pushed, 256 positions: within 1%; (e) reset after every history of length <=3 then every continuation of length 3 == fresh interpolator; distinct by case");
+    ctx.rule("frames f64, [f32;2], [i16;1]; depths 1..=8 and scale probes 12,16,17,25,32,33,50,64,100,128 (thorough 1..=16 and 17,20,25,31,32,33,50,63,64,65,100,127,128,129,200,256; depths above 8 with every 7th source, histories of length 2 and priming levels 0, depth, 2*depth only); (a) ratio 1 through Converter over an instrumented source: every source over {-1,-1/2,0,1/2,1} of length <=4 (thorough 5) plus impulse/step/ramp of length 3*depth: output k == 0 for k<depth and source[k-depth] after, within 1e-12 x peak, one pull per output; (b) linearity at x in k/16 (quick k/8) and at every priming level 0..=2*depth: impulse responses out(e_j) measured on the real code, every history over the alphabet of length <=3 (thorough 5): |out(h) - sum h_j out(e_j)| within (8 depth + 64) ulp x peak (ints: (2 depth + 2) LSB per term), out(c h) == c out(h) for c in {-1,1/2,2}; (c) every output finite; (d) constant input, depth>=4, >=2*depth frames pushed, 256 grid positions plus the boundary lattice of [0,1) (2^-k to 2^-64, 1-2^-k to 1-2^-53, 10^-k and 3x10^-k to 1e-16, 1-10^-k, 1e-100, 1e-300, the smallest normal and subnormal): within 1%; (e) reset after every history of length <=3 then every continuation of length 3 == fresh interpolator; distinct by case");
     ctx.sample(json!({"sys":"linear","fmt":"[i16;1]","depth":3,"pre":2,"l":3,"x":0.4375}));
     ctx.sample(json!({"sys":"transparent","fmt":"f64","depth":5,"src":[1.0,-0.5,0.0,0.5]}));
     ctx.assume("libm sin/cos inside the kernel are not modelled: linearity is checked against impulse responses measured on the same build");
